@@ -51,10 +51,7 @@ Theorem C17_gas_limit :
   (forall m, 0 <= m -> gas_limit (Some m) = m) /\
   (forall p mg, 0 < p_elasticity p -> (forall m, mg = Some m -> m <= max_uint64) ->
      is_uint64 (target p mg) = true).
-Proof.
-  exact (conj (proj1 gas_limit_unlimited) (conj (proj2 gas_limit_unlimited)
-        (conj gas_limit_configured target_is_uint64))).
-Qed.
+Proof. exact gas_limit_facts. Qed.
 Print Assumptions C17_gas_limit.
 
 Theorem C17_unchanged_at_target :
